@@ -113,7 +113,7 @@ Definition duration_since_epoch (t : Z * Z) : bool * (Z * Z) :=   (* (is_ok, dur
   else if n =? 0 then (false, (- s, 0))
   else (false, (- s - 1, NS - n)).
 
-(* jiff: Timestamp range *)
+(* jiff: Timestamp range: MIN = JIFF_MIN s + 0 ns, MAX = JIFF_MAX s + 999999999 ns *)
 Definition JIFF_MIN : Z := -377705023201.
 Definition JIFF_MAX : Z := 253402207200.
 
@@ -124,7 +124,7 @@ Definition JIFF_MAX : Z := 253402207200.
 Definition capture (t : Z * Z) : option (Z * Z) :=
   let '(ok, (s, n)) := duration_since_epoch t in
   let j := if ok then (s, n) else (- s, - n) in
-  if (JIFF_MIN <=? fst j) && (fst j <=? JIFF_MAX) then Some j else None.
+  if (JIFF_MIN <=? fst j) && (fst j <=? JIFF_MAX) && negb ((fst j =? JIFF_MIN) && (snd j <? 0)) then Some j else None.
 
 (* jiff: `SystemTime::from(Timestamp)`: UNIX_EPOCH.checked_add / checked_sub of the absolute
    duration; std normalises the timespec (borrow from the seconds when nanoseconds go negative) *)
